@@ -28,7 +28,9 @@
 (***************************************************************************)
 EXTENDS Naturals, Sequences, FiniteSets
 
-CONSTANTS DataFiles        \* tags of the data files of a part (the model's N files)
+CONSTANTS DataFiles,       \* tags of the data files of a part (the model's N files)
+          MaxPend          \* up to MaxPend un-synced effects every loss subset is explored (2^MaxPend images per
+                           \* point); beyond that only: none, all, each single one lost, each single one kept
 
 (* A name: d = directory (0 root, else part id); k = kind ("dir" part       *)
 (* directory, "snp" manifest, "data", "meta" metadata.json, "tt" tag.type); *)
@@ -158,7 +160,9 @@ PowerImage(S, keep, cls, inflight) ==
   IN [ns |-> Reach(PartialRm(ns0, lostRm, cls)), full |-> (full \ dirty) \cup (keep \cap full)]
 
 PendingRm == \E i \in DOMAIN pend : pend[i].op = "rmall"
+LossSets == IF Len(pend) <= MaxPend THEN SUBSET (DOMAIN pend)
+            ELSE {{}, DOMAIN pend} \cup {{i} : i \in DOMAIN pend} \cup {(DOMAIN pend) \ {i} : i \in DOMAIN pend}
 PowerImages(inflight) ==
-  {PowerImage(S, keep, cls, inflight) : S \in SUBSET (DOMAIN pend), keep \in SUBSET dirty,
+  {PowerImage(S, keep, cls, inflight) : S \in LossSets, keep \in SUBSET dirty,
                                         cls \in (IF PendingRm \/ inflight # {} THEN {"none", "meta", "data"} ELSE {"none"})}
 =============================================================================
